@@ -1146,3 +1146,63 @@ Proof.
              Hnd Hndo Hrk Hperm Hsc Hvn Ecl Haxis Elp Hlen2 Hhead).
 Qed.
 End Sound.
+
+(* ============================================================================================== *)
+(* 12. the executable LP instance of the extracted mirror                                          *)
+(* ============================================================================================== *)
+Lemma lp_sat_b_correct prefs axis vs xs : lp_sat_b prefs axis vs xs = true -> lp_sat prefs axis vs xs.
+Proof.
+  unfold lp_sat_b, lp_sat. rewrite andb_true_iff, forallb_forall, forallb2_Forall2. intros (H1 & H2). split.
+  - apply Forall_forall. intros ab Hab. apply Qle_bool_iff. exact (H1 ab Hab).
+  - eapply Forall2_impl; [|exact H2]. cbn beta. intros p r _ _ H. rewrite forallb_forall in H.
+    apply Forall_forall. intros ab Hab. specialize (H ab Hab).
+    destruct (before r (fst ab) (snd ab)); now apply Qle_bool_iff.
+Qed.
+
+Lemma lp_checked_sound prefs axis vs xs : lp_checked prefs axis = Some (vs, xs) -> lp_sat prefs axis vs xs.
+Proof.
+  unfold lp_checked. destruct (lp_exact prefs axis) as [[vs' xs']|]; [|discriminate].
+  destruct (lp_sat_b prefs axis vs' xs') eqn:E; [|discriminate]. intros H. injection H as <- <-.
+  now apply lp_sat_b_correct.
+Qed.
+
+(* the extracted mirror (protocol operation c19.algo): a True answer carries a map accepted by the checker *)
+Theorem eucl_algo_exact_sound alts orders vs xs : wf_profile alts orders ->
+  eucl_algo_exact alts orders = Ok (Some (vs, xs)) -> eucl_check alts orders vs xs = true.
+Proof. apply eucl_algo_sound. exact lp_checked_sound. Qed.
+
+Corollary eucl_algo_exact_euclidean alts orders vs xs : wf_profile alts orders ->
+  eucl_algo_exact alts orders = Ok (Some (vs, xs)) -> Euclidean orders /\ eucl_decide alts orders = true.
+Proof.
+  intros Hwf H. pose proof (eucl_algo_exact_sound alts orders vs xs Hwf H) as Hc.
+  assert (HE : Euclidean orders) by (eapply planted_sound; exact Hc). split; [assumption|].
+  destruct Hwf as (Hnd & _ & Hrk). now apply (eucl_decide_correct alts orders Hnd Hrk).
+Qed.
+
+(* completeness, PARTIAL: a 1-Euclidean profile always passes the single-crossing precheck, so the mirror can
+   answer False on it only through the colouring exit or an infeasible LP on the constructed axis (that these two
+   cannot happen is the Elkind-Faliszewski correctness argument, NOT formalised here) *)
+Theorem eucl_algo_complete_partial alts orders : wf_profile alts orders -> Euclidean orders ->
+  exists sc_order, sc_algo alts orders = Ok (Some sc_order).
+Proof.
+  intros Hwf HE. apply sc_algo_complete; [assumption|]. destruct Hwf as (Hnd & _ & Hrk).
+  now apply Euclidean_SC.
+Qed.
+
+(* no exception on well-formed non-empty profiles (whatever the LP answers) *)
+Theorem eucl_algo_no_error lp alts orders : wf_profile alts orders -> orders <> [] -> alts <> [] ->
+  forall e, eucl_algo lp alts orders <> Err e.
+Proof.
+  intros Hwf Ho Ha e. pose proof Hwf as (Hnd & Hndo & Hrk). unfold eucl_algo.
+  destruct (sc_algo alts orders) as [[sc_order|]|e'] eqn:Esc; [|discriminate|exfalso; exact (sc_algo_no_error alts orders Hwf e' Esc)].
+  pose proof (sc_algo_sound alts orders sc_order Hwf Esc) as Hw.
+  apply (sc_witness_check_perm alts orders sc_order Hndo) in Hw. destruct Hw as (Hperm & _).
+  destruct sc_order as [|v1 seqt]; [apply Permutation_sym, Permutation_nil in Hperm; congruence|].
+  assert (Hp : forall r, In r (v1 :: seqt) -> r <> []).
+  { intros r Hr E. rewrite Forall_forall in Hrk. assert (Hin : In r orders) by (eapply Permutation_in; [apply Permutation_sym; exact Hperm|exact Hr]).
+    specialize (Hrk r Hin). rewrite E in Hrk. apply Permutation_sym, Permutation_nil in Hrk. congruence. }
+  pose proof (Hp v1 (or_introl eq_refl)) as H1. pose proof (Hp _ (last_In v1 seqt v1)) as Hn.
+  destruct v1 as [|c_minus v1t]; [congruence|]. destruct (last ((c_minus :: v1t) :: seqt) (c_minus :: v1t)) as [|c_plus vnt]; [congruence|].
+  destruct (length orders =? 1)%nat; [discriminate|].
+  destruct (colour_loop _ _ _ _); [|discriminate]. destruct (lp _ _) as [[? ?]|]; discriminate.
+Qed.
